@@ -114,6 +114,8 @@ def run_copy(case, env, res, d):
     src = D.asarray(d / 'src', base, metadata=dict(MD) if case['md'] else None, accessmode='r+', chunklen=2)
     cl = case['chunklen']
     cl = max(1, shape[0]) if cl == 'len' else cl
+    if cl == 3 and case['k'] % 8 == 2:
+        cl = np.uint8(3)            # a chunk length spelled as a NumPy scalar of a narrow type
     expected = base if tgt is None else base.astype(tgt)
     over = case.get('over')
     if over:       # the target path already holds another array (with its own metadata): overwrite=True must replace it
